@@ -35,6 +35,7 @@ Next ==
   \/ "conduse" \in Alphabet /\ \E m \in 1..NMsg : Perturb("conduse", m, 0, CondUseF(st, m))
   \/ "reload" \in Alphabet /\ st' = ReloadF(st, InitPrios, ReAddPinned) /\ mon' = MonReload(mon, st'.prio)
                            /\ obs' = [k |-> "reload", m |-> 0, a |-> 0, sel |-> 0]
+  \/ "replace" \in Alphabet /\ \E m \in SetPrioMsgs \cap 1..NMsg, p \in SetPrios : Perturb("replace", m, p, ReAddF(st, m, p, ReAddPinned))
   \/ "readd" \in Alphabet /\ \E m \in 1..NMsg : Perturb("readd", m, 0, ReAddF(st, m, InitPrios[m], ReAddPinned))
 
 (* S => P *)
@@ -60,6 +61,7 @@ AlphaPert == {"next", "tick", "setprio", "addback", "addfront", "conduse"}
 AlphaPertNoTick == {"next", "setprio", "addback", "addfront"}
 AlphaPertCond == {"next", "setprio", "addback", "addfront", "conduse"}
 AlphaReAdd == {"next", "readd"}
+AlphaReplace == {"next", "replace", "setprio", "addfront"}
 AlphaReload == {"next", "reload", "setprio", "addfront"}
 AlphaSelf == {"next", "setprio"}
 P238 == <<2, 3, 8>>
